@@ -375,7 +375,7 @@ static void runMinimizerCase(verif::Run& run, Sut& S, const Configs& C, int star
 
 int main(int argc, char** argv) {
     verif::Run run("C43", argc, argv);
-    run.setDeadline(900, 5400);
+    run.setDeadline(900, 3600);
     if (const char* mv = getenv("C43_MAXV")) run.maxViolsPerKey = atoi(mv);
     const bool th = run.thorough();
     const int vs = (int)(((run.seed % 3) + 3) % 3);
